@@ -45,13 +45,17 @@ void Kernel::emit(Event &e) {
 Fault *Kernel::match_fault(CallId c, const std::string &path) {
   Proc *p = cp();
   if (!p || faults.empty()) return nullptr;
-  std::string actor;
+  std::string actor, full;
   for (Fault &f : faults) {
     if (f.fired) continue;
     if (f.call != C_ANY && f.call != c) continue;
     if (f.call == C_ANY && (c == C_MALLOC)) continue;
     if (!f.actor.empty()) { if (actor.empty()) actor = p->actor(); if (actor.compare(0, f.actor.size(), f.actor) != 0) continue; }
-    if (!f.path.empty() && path.find(f.path) == std::string::npos) continue;
+    if (!f.path.empty()) {
+      // path arguments are matched in absolute form, so that "/remote/" also matches the daemon's relative "remote/15/222"
+      if (!path.empty() && path[0] != '/' && full.empty()) full = p->cwd_path + (p->cwd_path.empty() || p->cwd_path.back() != '/' ? "/" : "") + path;
+      if ((full.empty() ? path : full).find(f.path) == std::string::npos) continue;
+    }
     if (++f.seen < f.nth) continue;
     f.fired = true;
     return &f;
